@@ -68,6 +68,43 @@ theorem runFiles_cons (env : Env C V Out) (f : Str) (t : List Str) :
     | none => simp only []; rw [loop_app env t _]
     | some v => simp only []; rw [loop_app env t _]
 
+/-! ### exit status of a run -/
+
+/-- distinct positive codes for the remembered classes -/
+abbrev LoopWf (c : Codes) : Prop :=
+  0 < c.io ∧ 0 < c.decode ∧ 0 < c.expr ∧ c.io ≠ c.decode ∧ c.io ≠ c.expr ∧ c.decode ≠ c.expr
+
+theorem exit_eq_io (c : Codes) (h : LoopWf c) (a b d : Bool) : (finallyExit c a b d = c.io) = (a = true) := by
+  obtain ⟨h1, h2, h3, h4, h5, h6⟩ := h
+  cases a <;> cases b <;> cases d <;> simp [finallyExit] <;> omega
+
+theorem exit_eq_dec (c : Codes) (h : LoopWf c) (a b d : Bool) :
+    (finallyExit c a b d = c.decode) = (a = false ∧ b = true) := by
+  obtain ⟨h1, h2, h3, h4, h5, h6⟩ := h
+  cases a <;> cases b <;> cases d <;> simp [finallyExit] <;> omega
+
+theorem exit_eq_expr (c : Codes) (h : LoopWf c) (a b d : Bool) :
+    (finallyExit c a b d = c.expr) = (a = false ∧ b = false ∧ d = true) := by
+  obtain ⟨h1, h2, h3, h4, h5, h6⟩ := h
+  cases a <;> cases b <;> cases d <;> simp [finallyExit] <;> omega
+
+/-- the values `collect` gathers do not depend on the error memory it carries -/
+theorem collect_vals_indep (env : Env C V Out) :
+    ∀ (fs : List Str) (st st' : St Out) (acc : List V), (collect env fs st acc).2 = (collect env fs st' acc).2 := by
+  intro fs
+  induction fs with
+  | nil => intro st st' acc; rfl
+  | cons h t ih =>
+    intro st st' acc
+    simp only [collect]
+    cases env.openF h with
+    | none => exact ih _ _ _
+    | some cnt =>
+      simp only []
+      cases env.decode cnt with
+      | none => exact ih _ _ _
+      | some v => exact ih _ _ _
+
 /-! ### raw input lines -/
 
 theorem splitNl_ne_nil (s : Str) : splitNl s ≠ [] := by
